@@ -16,9 +16,9 @@ CHECKS = {
          "DESIGN.md 6.C04", "E1"),
  "C05": ("exploration",
          "bounded exhaustive enumeration of (width, value, bounds, bound form, written value) tuples vs bit-level integer definitions",
-         "Every read/write of every slice and index with bounds in {None,-2..n+2} (given as int and as Bits) on every value of widths 1..5 (7 thorough), "
+         "Every read/write of every slice (steps None, 1, 2 and 0) and index with bounds in {None,-2..n+2} (given as int, as Bits and, for indices, as the non-integral float i+0.5) on every value of widths 1..5 (7 thorough), "
          "boundary bounds on widths 8..1023, all concat tuples of <=3 operands of widths 1..3 (thorough: widths 1..4 and 4 operands), all zext/sext/trunc (n,m) pairs, reduce ops on all values "
-         "of widths 1..8 and clog2 on 1..2^17 (2^24) plus 2^k-1,2^k,2^k+1 for k<1100 are compared with the integer definition, including the frame condition on writes.",
+         "of widths 1..8 and clog2 on 1..2^17 (2^24) plus 2^k-1,2^k,2^k+1 for k<1100 (as ints and as Bits values) are compared with the integer definition, including the frame condition on writes.",
          "Trusted: Python ints and the oracles in vt/checks/c05.py. Interior values of wide words are not covered.",
          "DESIGN.md 6.C05", "E1"),
  "C19": ("model_checking",
@@ -41,7 +41,10 @@ CHECKS = {
          "schedule enumeration on the real simulator: all pass groups x all linear extensions (cap) x all ff permutations x SimpleSchedulePass shuffle-seam DFS, vs an independent dataflow reference",
          "For ~600 generated designs (access-shape products over Bits/struct/nested/list carriers, hierarchy placements, nets, registers) every one of the five "
          "scheduling pass groups, every linear extension of the constraint DAG (cap 60/720) times every flip-flop order, and every schedule SimpleSchedulePass can "
-         "emit are run over all input vectors / sequences; ALL signals are compared with the reference after each eval and tick, and the fixed point is re-checked.",
+         "emit are run over all input vectors / sequences; ALL signals are compared with the reference after each eval and tick, and the fixed point is re-checked. "
+         "~95 hand-written statement-family designs (vt/stmtfam.py, incl. reads inside index expressions / keyword arguments / call results, names resolved in the wrong scope, "
+         "fields named like Signal methods, loop-variable aliases, flip-flop writes the DSL must understand or refuse) run under the same groups, the real PassGroups classes and every "
+         "SimpleSchedulePass schedule against their reference functions, with the fixed point asserted after ONE combinational evaluation.",
          "Trusted: vt/irref.py (reference evaluator, self-checked by reverse-order settle) and the generators' legality. Bounds: widths <= 4, <= 7 blocks, sequence length 2 (3).",
          "DESIGN.md 6.C01", "E1 E2"),
  "C02": ("model_checking",
@@ -51,7 +54,9 @@ CHECKS = {
          "each block must run exactly once per pass. Thorough runs every pass group under 4 object-hash permutations and up to 400 seam schedules per design. "
          "OpenLoopCLPass: every sequence of <= 4 (5) top-level method calls on 7 designs (push/pull around update blocks, the three CL queues with capacity 1 and 2): blocks, guards and "
          "methods run at most once per cycle in constraint order, a call is not pushed into the next cycle when the partial order forces it into the current one, and the returned values "
-         "equal a model that replays the executed order.",
+         "equal a model that replays the executed order; the pass's vertex shuffle is owned by the harness (all 8 tie-breaks for sequences of length <= 3); designs with an iterated group of blocks "
+         "and with a top-level callee connected to a child method. Hand-written CL / FL designs (also update_once without method ports, a method called through a function, a WR constraint on a "
+         "connected port) run under Default, Simple, Unroll, HeuTopoUnrollSim and Mamba2020.",
          "Trusted: bit-level access analysis in vt/ir.py; net blocks are identified through genblk_writes. Variable indices are treated conservatively.",
          "DESIGN.md 6.C02", "E1 E2"),
  "C07": ("model_checking",
@@ -65,14 +70,17 @@ CHECKS = {
          "bounded exhaustive enumeration of struct type shapes x packed values vs an independent layout spec; exhaustive copy/assignment histories on two objects vs Python trees",
          "About 800 (quick) / 9000 (thorough) bitstruct shapes (<=3 fields (4 thorough), nested structs up to depth 3, 1-d and 2-d list fields of Bits and of structs, width <= 12 (14; 40 for the deep shapes)) are created with the "
          "real mk_bitstruct; for every packed value (width <= 8 (11 thorough); boundary patterns above) layout, both round trips, ==, hash, dict lookup, clone, deepcopy, @=, <<=/_flip and "
-         "independence of every leaf are checked; all histories of length <= 2 (3) of assignments/copies/in-place mutations on two objects are compared with plain value trees; a second definition with the same class name and permuted fields must pack in its own order.",
+         "independence of every leaf are checked; all histories of length <= 2 (3) of assignments/copies/in-place mutations on two objects (incl. a new value constructed from the field objects of the other) are compared with plain value trees; values built from plain ints must equal the Bits-built ones; "
+         "a second definition with the same class name and permuted fields must pack in its own order; ragged / mixed list specifications are refused; a derived @bitstruct class packs the inherited fields.",
          "Trusted: vt/layout.py (40 lines). Widths above 12 and more than 3 fields are not covered.",
          "DESIGN.md 6.C06", "E1 E4"),
  "C11": ("model_checking",
          "enumeration of cyclic block graphs x cyclic-capable schedulers x all input sequences (pre-states); fixed-point re-check on the real blocks, reference values for false loops",
          "122 block-level cyclic designs (false loops through whole signals, slices, fields, nested fields, list elements; SCCs as sources and behind a predecessor; rings of 3..12 "
          "blocks; latching and oscillating true loops; update_once members) are evaluated under DynamicSchedulePass and Mamba2020Pass for every input sequence of length 2 (3); "
-         "each return is re-checked to be a fixed point and, for false loops, equal to the reference; divergence and update_once must raise; acyclic-only passes must reject.",
+         "each return is re-checked to be a fixed point and, for false loops, equal to the reference; divergence and update_once must raise (also when the cycle passes through a connection or the "
+         "update_once block calls a blocking method); acyclic-only passes must reject with UpblkCyclicError, also when the harness answers 'no graph viewer installed' for the drawing aid they call first. "
+         "Loops inside ONE block are part of the family (recorded known finding).",
          "Trusted: vt/irref.py for false loops; a 20 s alarm as hang detector. Loops through nets/children are not generated.",
          "DESIGN.md 6.C11", "E1 E2"),
  "C13": ("exploration",
@@ -82,7 +90,9 @@ CHECKS = {
          "parameters / >64-character and special-character parameter lists, two classes with one __name__, bodies depending on module-level state, a set_param override -- is built as two "
          "children of one top and translated by both backends; the text is parsed (every module once, every instantiated name defined, identifiers unique per scope), two instances sharing a "
          "module name must have identical stand-alone bodies, and the text is executed on 12 inputs against the PyMTL simulation. Determinism: 55 (thorough: +E2 designs) designs x 2 backends "
-         "are translated in one fresh child process per hash seed (6 / 16 seeds) and under 3 object-hash permutations in-process; sha1 of every text must agree. Nine name-mangling designs.",
+         "are translated in one fresh child process per hash seed (6 / 16 seeds) and under 3 object-hash permutations in-process; sha1 of every text must agree (incl. set- and function-holding container "
+         "arguments). Twelve name-mangling designs (non-ASCII names, blocks named like signals, colliding struct type names). The 23 designs pymtl3 ships (stdlib queues / arbiters / register file / "
+         "crossbar, ex02 - ex04 incl. the processor) must translate in both backends and parse with every instantiated module defined once.",
          "Hash seeds are enumerated, not quantified (str hashing is outside Python's control). Trusted: vt/svparse.py / vt/svsim.py. Mangled-identifier collisions are a recorded known finding.",
          "DESIGN.md 6.C13", "E1 E3"),
  "C14": ("exploration",
@@ -90,7 +100,8 @@ CHECKS = {
          "Every hierarchy with <= 3 (4 thorough) top members and <= 2 (3) mid-level members drawn from 13- and 10-entry menus (components, lists and 2-d lists of components, interfaces and lists of them, "
          "method ports, Bits/struct/struct-with-list/nested-struct/list-of-struct signals, lists of signals) is elaborated twice; update blocks, connections and post-elaboration "
          "accesses create field, list-field, slice, slice-of-slice and bit signals; for every object eval(repr(o)) is o, names are unique, parent/host/level/top-level-signal agree "
-         "with the name, and both elaborations give the same name sets.",
+         "with the name, get_leaf_signals works, and both elaborations give the same name sets. The menus include second references to already placed objects (alias attribute, list of references), "
+         "lists that grow after they were assigned, and inverse interfaces.",
          "Trusted: the 10-line name splitter. Depth 2 only; set_param trees are not exercised.",
          "DESIGN.md 6.C14", "E1"),
  "C15": ("model_checking",
@@ -102,10 +113,11 @@ CHECKS = {
          "DESIGN.md 6.C15", "E1"),
  "C16": ("model_checking",
          "exhaustive input sequences on the real simulator with VCD + text-wave passes; dump read back by an independent VCD parser and compared per signal per cycle with sampled simulator values",
-         "27 designs (one-bit signals holding comparison results, 64- and 72-bit nets stepped between values congruent modulo 2^61-1, nets of top-level signals sharing one identifier, nets with slices, struct signals, constants tied to ports, never-changing signals, children, "
+         "28 designs (one-bit signals holding comparison results, 64- and 72-bit nets stepped between values congruent modulo 2^61-1, nets of top-level signals sharing one identifier, nets with slices, struct signals, constants tied to ports, never-changing signals, children, "
          "100- and 200-output designs that need multi-character identifier codes) are simulated for every sequence of length 3 (5) over a 4-letter (5-letter) alphabet that revisits values; "
          "every declared variable of every scope must be present once with the right width and carry, at time 100*t, the value sampled before the edge of cycle t; clock edges and "
-         "the text-wave record are checked too.",
+         "the text-wave record are checked too; a second design with recording is prepared (never simulated) in the same process and must stay untouched; children named s / top; "
+         "a hand-written design with interface members called clk / reset / mosi for every sequence up to length 4.",
          "Trusted: vt/vcdparse.py (90 lines). Net numbering order is controlled through the object-hash seam (4 permutations).",
          "DESIGN.md 6.C16", "E1 E2 E4"),
  "C08": ("exploration",
